@@ -64,6 +64,14 @@ func child(args []string) {
 	dir, kind := args[0], args[1]
 	syscall.Umask(0o022)
 	dest := filepath.Join(dir, "dest")
+	switch args[len(args)-1] { // a destination given relative to the working directory
+	case "rel":
+		_ = os.Chdir(dir)
+		dest = "dest"
+	case "dot":
+		_ = os.Chdir(dir)
+		dest = "./dest"
+	}
 	var mode os.FileMode
 	fmt.Sscanf(args[3], "%o", &mode)
 	switch kind {
@@ -161,6 +169,11 @@ func parseTrace(path, dir string) string {
 		ret := strings.Fields(rest[eq+3:])[0]
 		call := strings.TrimSpace(rest[:eq])
 		paths := quoted.FindAllStringSubmatch(call, -1)
+		for _, pm := range paths { // the child's working directory is the scenario directory whenever it uses relative names
+			if !strings.HasPrefix(pm[1], "/") {
+				pm[1] = filepath.Join(dir, pm[1])
+			}
+		}
 		switch {
 		case strings.HasPrefix(call, "openat("):
 			if len(paths) > 0 && isTemp(paths[0][1]) && ret != "-1" {
@@ -304,7 +317,7 @@ func gen(r *hx.Rand, n int) []string {
 			if r.Chance(1, 3) {
 				fail = fmt.Sprint(r.Intn(len(sizes(sz)) + 1))
 			}
-			out = append(out, fmt.Sprintf("wf %s %s %s %s", old, mode, fail, sz))
+			out = append(out, strings.TrimSpace(fmt.Sprintf("wf %s %s %s %s %s", old, mode, fail, sz, []string{"", "", "rel", "dot"}[r.Intn(4)])))
 		case i%10 < 8:
 			var ops []string
 			for k := r.Range(1, 7); k > 0; k-- {
@@ -317,7 +330,7 @@ func gen(r *hx.Rand, n int) []string {
 					ops = append(ops, fmt.Sprintf("w%d", []int{0, 1, 100, 70000}[r.Intn(4)]))
 				}
 			}
-			out = append(out, fmt.Sprintf("file %s %s %s", old, mode, strings.Join(ops, ",")))
+			out = append(out, strings.TrimSpace(fmt.Sprintf("file %s %s %s %s", old, mode, strings.Join(ops, ","), []string{"", "", "rel", "dot"}[r.Intn(4)])))
 		default:
 			sc := []string{"write", "write", "close", "renameat", "openat"}[r.Intn(5)]
 			if old == "dir" {
